@@ -421,6 +421,9 @@ func (a *adversary) craftNV(r *run, h, tv uint64) (*interfaces.ConsensusRawMessa
 	case 3:
 		d.ppBy = a.someSigner(r)
 		name += "_pp_signed_by_other"
+	case 5: // the embedded proposal names the leader but its signature is not the leader's (the NEW_VIEW's own signature does not cover it)
+		d.ppMode = "forged"
+		name += "_proposal_sig_forged"
 	case 4: // the attached block has the signed hash but says it is of another height (every consumer rejects it as a proposal for h)
 		blk = &vBlock{height: h + 1, body: b.body}
 		name += "_block_of_other_height"
